@@ -158,5 +158,161 @@ theorem sig2_sig2 (wf : d.WF) {x : Key} (hx : x ∈ d.canon) : d.sig2 (d.sig2 x)
   simp only [Prod.mk.injEq]
   omega
 
+/-! ## the mirror images permute the four elements -/
+
+theorem sig1_b (wf : d.WF) {x : Key} (hx : x ∈ d.canon) :
+    Int.tmod (d.sig1 x).2.2.2 d.N = x.2.1 ∧ (d.sig1 x).2.1 = Int.tmod x.2.2.2 d.N ∧
+      0 ≤ Int.tmod x.2.2.2 d.N ∧ Int.tmod x.2.2.2 d.N < d.N := by
+  obtain ⟨h1, h2, h3, h4, h5, h6, h7, h8, h9⟩ := canon_lin wf hx
+  obtain ⟨_, _, _, _, _, _, _, _, g9⟩ := canon_lin wf (sig1_canon wf hx)
+  have := wf.heven
+  have := wf.hfan
+  have := wf.hh
+  unfold Dims.sig1 at g9 ⊢
+  simp only at *
+  omega
+
+theorem sig2_b (wf : d.WF) {x : Key} (hx : x ∈ d.canon) :
+    Int.tmod (d.sig2 x).2.2.2 d.N = d.N - 1 - x.2.1 ∧ (d.sig2 x).2.1 = d.N - 1 - Int.tmod x.2.2.2 d.N ∧
+      0 ≤ Int.tmod x.2.2.2 d.N ∧ Int.tmod x.2.2.2 d.N < d.N := by
+  obtain ⟨h1, h2, h3, h4, h5, h6, h7, h8, h9⟩ := canon_lin wf hx
+  obtain ⟨_, _, _, _, _, _, _, _, g9⟩ := canon_lin wf (sig2_canon wf hx)
+  have := wf.heven
+  have := wf.hfan
+  have := wf.hh
+  unfold Dims.sig2 at g9 ⊢
+  simp only at *
+  omega
+
+theorem K_sig1 (wf : d.WF) {x : Key} (hx : x ∈ d.canon) (hr : x.1 < x.2.2.1) :
+    d.K1 (d.sig1 x) = d.K3 x ∧ d.K2 (d.sig1 x) = d.K4 x ∧ d.K3 (d.sig1 x) = d.K1 x ∧ d.K4 (d.sig1 x) = d.K2 x := by
+  obtain ⟨h1, h2, h3, h4, h5, h6, h7, h8, h9⟩ := canon_lin wf hx
+  obtain ⟨e1, e2, e3, e4⟩ := K_red wf hx
+  obtain ⟨f1, f2, f3, f4⟩ := K_red wf (sig1_canon wf hx)
+  obtain ⟨b1, b2, b3, b4⟩ := sig1_b wf hx
+  rw [e1, e2, e3, e4, f1, f2, f3, f4, b1, b2]
+  unfold Dims.sig1
+  simp only [sub_sub_cancel]
+  refine ⟨?_, ?_, ?_, ?_⟩
+  · exact storeKey_symm d (by omega) ⟨b3, b4⟩ ⟨h5, h6⟩
+  · exact storeKey_symm d (by omega) ⟨by omega, by omega⟩ ⟨by omega, by omega⟩
+  · exact storeKey_symm d (by omega) ⟨b3, b4⟩ ⟨h5, h6⟩
+  · exact storeKey_symm d (by omega) ⟨by omega, by omega⟩ ⟨by omega, by omega⟩
+
+theorem K_sig2 (wf : d.WF) {x : Key} (hx : x ∈ d.canon) (hr : x.1 < x.2.2.1) :
+    d.K1 (d.sig2 x) = d.K4 x ∧ d.K2 (d.sig2 x) = d.K3 x ∧ d.K3 (d.sig2 x) = d.K2 x ∧ d.K4 (d.sig2 x) = d.K1 x := by
+  obtain ⟨h1, h2, h3, h4, h5, h6, h7, h8, h9⟩ := canon_lin wf hx
+  obtain ⟨e1, e2, e3, e4⟩ := K_red wf hx
+  obtain ⟨f1, f2, f3, f4⟩ := K_red wf (sig2_canon wf hx)
+  obtain ⟨b1, b2, b3, b4⟩ := sig2_b wf hx
+  rw [e1, e2, e3, e4, f1, f2, f3, f4, b1, b2]
+  unfold Dims.sig2
+  simp only [sub_sub_cancel]
+  refine ⟨?_, ?_, ?_, ?_⟩
+  · exact storeKey_symm d (by omega) ⟨by omega, by omega⟩ ⟨by omega, by omega⟩
+  · exact storeKey_symm d (by omega) ⟨b3, b4⟩ ⟨h5, h6⟩
+  · exact storeKey_symm d (by omega) ⟨by omega, by omega⟩ ⟨by omega, by omega⟩
+  · exact storeKey_symm d (by omega) ⟨b3, b4⟩ ⟨h5, h6⟩
+
+theorem K_sig0 (d : Dims) (x : Key) :
+    d.K1 (d.sig0 x) = d.K3 x ∧ d.K2 (d.sig0 x) = d.K4 x ∧ d.K3 (d.sig0 x) = d.K1 x ∧ d.K4 (d.sig0 x) = d.K2 x := by
+  unfold Dims.K1 Dims.K2 Dims.K3 Dims.K4 Dims.sig0
+  simp only [sub_sub_cancel]
+  exact ⟨rfl, rfl, rfl, rfl⟩
+
+theorem fourTerms_cross (d : Dims) {ra rb : Int} (h : ra ≠ rb) : d.fourTerms ra rb = true := by
+  unfold Dims.fourTerms
+  simp only [Bool.or_eq_true, bne_iff_ne, ne_eq]
+  omega
+
+theorem fourTerms_sig0 (d : Dims) (r : Int) : d.fourTerms (d.R - 1 - r) (d.R - 1 - r) = d.fourTerms r r := by
+  unfold Dims.fourTerms
+  simp only [Bool.or_self, sub_sub_cancel]
+  by_cases h : r = d.R - 1 - r
+  · rw [← h]
+  · have h' : d.R - 1 - r ≠ r := fun h' => h h'.symm
+    simp [h, h']
+
+/-- in-ring entries: the axial mirror image is summed over the same elements -/
+theorem mirrorKeys_sig0 (d : Dims) {x : Key} (hr : x.1 = x.2.2.1) : (d.mirrorKeys (d.sig0 x)).Perm (d.mirrorKeys x) := by
+  obtain ⟨k1, k2, k3, k4⟩ := K_sig0 d x
+  rw [mirrorKeys_eq, mirrorKeys_eq, k1, k2, k3, k4]
+  have hf : d.fourTerms (d.sig0 x).1 (d.sig0 x).2.2.1 = d.fourTerms x.1 x.2.2.1 := by
+    unfold Dims.sig0
+    simp only
+    rw [← hr]
+    exact fourTerms_sig0 d x.1
+  rw [hf]
+  split
+  · exact (List.perm_append_comm (l₁ := [d.K3 x, d.K4 x]) (l₂ := [d.K1 x, d.K2 x]))
+  · rename_i hft
+    -- the LOR is its own axial mirror image
+    have hc : d.R - 1 - x.1 = x.1 := by
+      have := (Bool.not_eq_true _).1 hft
+      unfold Dims.fourTerms at this
+      simp only [Bool.or_eq_false_iff, bne_eq_false_iff_eq] at this
+      exact this.1.symm
+    unfold Dims.K3 Dims.K4 Dims.K1 Dims.K2
+    rw [← hr, hc]
+
+/-- cross-ring entries: both other-detector mirror images are summed over the same elements -/
+theorem mirrorKeys_sig1 (wf : d.WF) {x : Key} (hx : x ∈ d.canon) (hr : x.1 < x.2.2.1) :
+    (d.mirrorKeys (d.sig1 x)).Perm (d.mirrorKeys x) := by
+  obtain ⟨k1, k2, k3, k4⟩ := K_sig1 wf hx hr
+  rw [mirrorKeys_eq, mirrorKeys_eq, k1, k2, k3, k4, fourTerms_cross d (by omega : x.1 ≠ x.2.2.1),
+    fourTerms_cross d (by unfold Dims.sig1; simp only; omega : (d.sig1 x).1 ≠ (d.sig1 x).2.2.1)]
+  exact (List.perm_append_comm (l₁ := [d.K3 x, d.K4 x]) (l₂ := [d.K1 x, d.K2 x]))
+
+theorem mirrorKeys_sig2 (wf : d.WF) {x : Key} (hx : x ∈ d.canon) (hr : x.1 < x.2.2.1) :
+    (d.mirrorKeys (d.sig2 x)).Perm (d.mirrorKeys x) := by
+  obtain ⟨k1, k2, k3, k4⟩ := K_sig2 wf hx hr
+  rw [mirrorKeys_eq, mirrorKeys_eq, k1, k2, k3, k4, fourTerms_cross d (by omega : x.1 ≠ x.2.2.1),
+    fourTerms_cross d (by unfold Dims.sig2; simp only; omega : (d.sig2 x).1 ≠ (d.sig2 x).2.2.1)]
+  exact (List.reverse_perm [d.K1 x, d.K2 x, d.K3 x, d.K4 x])
+
+/-! ## the mirror images respect the lattice of block translations -/
+
+theorem sig0_lat {g : GeoDims} {x y : Key} (h : LatRel g x y) : LatRel g (d.sig0 x) (d.sig0 y) := by
+  obtain ⟨p, q, hp, hq, rfl⟩ := h
+  refine ⟨-p, q, (dvd_neg).2 hp, hq, ?_⟩
+  unfold Dims.sig0
+  ext <;> simp <;> ring
+
+theorem sig1_lat (wf : d.WF) {g : GeoDims} (hT : (g.half * 2) ∣ d.N) {x y : Key} (hx : x ∈ d.canon) (hy : y ∈ d.canon)
+    (h : LatRel g x y) : LatRel g (d.sig1 x) (d.sig1 y) := by
+  obtain ⟨_, _, _, _, _, _, _, _, h9⟩ := canon_lin wf hx
+  obtain ⟨_, _, _, _, _, _, _, _, g9⟩ := canon_lin wf hy
+  obtain ⟨p, q, hp, hq, rfl⟩ := h
+  simp only at h9
+  have hcases : ∃ q', (g.half * 2) ∣ q' ∧ Int.tmod (y.2.2.2 + q) d.N = Int.tmod y.2.2.2 d.N + q' := by
+    rcases h9 with ⟨a1, _⟩ | ⟨a1, _⟩ <;> rcases g9 with ⟨a2, _⟩ | ⟨a2, _⟩
+    · exact ⟨q, hq, by omega⟩
+    · exact ⟨q + d.N, dvd_add hq hT, by omega⟩
+    · exact ⟨q - d.N, dvd_sub hq hT, by omega⟩
+    · exact ⟨q, hq, by omega⟩
+  obtain ⟨q', hq', he⟩ := hcases
+  refine ⟨-p, q', (dvd_neg).2 hp, hq', ?_⟩
+  unfold Dims.sig1
+  simp only [he, Prod.mk.injEq]
+  refine ⟨by ring, trivial, by ring, by ring⟩
+
+theorem sig2_lat (wf : d.WF) {g : GeoDims} (hT : (g.half * 2) ∣ d.N) {x y : Key} (hx : x ∈ d.canon) (hy : y ∈ d.canon)
+    (h : LatRel g x y) : LatRel g (d.sig2 x) (d.sig2 y) := by
+  obtain ⟨_, _, _, _, _, _, _, _, h9⟩ := canon_lin wf hx
+  obtain ⟨_, _, _, _, _, _, _, _, g9⟩ := canon_lin wf hy
+  obtain ⟨p, q, hp, hq, rfl⟩ := h
+  simp only at h9
+  have hcases : ∃ q', (g.half * 2) ∣ q' ∧ Int.tmod (y.2.2.2 + q) d.N = Int.tmod y.2.2.2 d.N - q' := by
+    rcases h9 with ⟨a1, _⟩ | ⟨a1, _⟩ <;> rcases g9 with ⟨a2, _⟩ | ⟨a2, _⟩
+    · exact ⟨-q, (dvd_neg).2 hq, by omega⟩
+    · exact ⟨-q - d.N, dvd_sub ((dvd_neg).2 hq) hT, by omega⟩
+    · exact ⟨-q + d.N, dvd_add ((dvd_neg).2 hq) hT, by omega⟩
+    · exact ⟨-q, (dvd_neg).2 hq, by omega⟩
+  obtain ⟨q', hq', he⟩ := hcases
+  refine ⟨-p, q', (dvd_neg).2 hp, hq', ?_⟩
+  unfold Dims.sig2
+  simp only [he, Prod.mk.injEq]
+  refine ⟨by ring, by ring, by ring, by ring⟩
+
 end
 end StirVerif.C20
